@@ -457,6 +457,13 @@ pub fn gen_int(a: &Args, out: &mut Out, run0: u64, nruns: u64, max_steps: u32) {
         let mut pokes = vec![];
         for v in [0x180u16, 0x181, 0x190, 0x191] { pokes.push((v, word(0x1000, 0xFFFF))); }
         m.set_mems(out, &pokes);
+        // signatures registered at the vector-table addresses (the callee of an interrupt frame is x0100 + vector):
+        // calling-convention and pass-by-register
+        if chance(&mut rng, 50) {
+            for v in [0x180u16, 0x181, 0x190, 0x191] {
+                if chance(&mut rng, 50) { if chance(&mut rng, 50) { m.srdef(out, v, Some(rng.random_range(0..3usize)), &[]); } else { m.srdef(out, v, None, &[rng.random_range(0..6u8), rng.random_range(0..6u8)]); } }
+            }
+        }
         let s1 = m.add_intfn(out);
         let s2 = m.add_intfn(out);
         let use_timer = chance(&mut rng, 50);
@@ -851,6 +858,8 @@ pub fn emit_machine(a: &Args, out: &mut Out) {
     if kind == "trapmode" { crate::scen3::gen_trapmode(a, out); return; }
     if kind == "locks" { crate::scen3::gen_locks(a, out); return; }
     if kind == "devices" { crate::scen3::gen_devices(a, out); return; }
+    if kind == "obsrun" { crate::scen3::gen_obsrun(a, out); return; }
+    if kind == "timeropen" { crate::scen3::gen_timeropen(a, out); return; }
     if kind == "bound" { gen_bound(a, out, 1, a.get_u64("reps", if a.thorough() { 10 } else { 1 })); return; }
     if kind == "long" { gen_long(a, out, a.get_u64("steps", 8700) as u32); return; }
     if kind == "edge" { gen_edge(a, out, 1, a.get_u64("stride", if a.thorough() { 1 } else { 3 }) as u16); return; }
